@@ -19,9 +19,10 @@ TRUSTED_BASE = ["Spec/RebaseListing.lean: the format-31 writer and `expectedMap`
                 "ioutil.ReadFile (rebase.Read) — exercised by the correspondence check only"]
 ASSUMPTIONS = ["supplier code letters are ASCII (rune(trimmedString[0]) is a byte, the name is cut at byte 9; range over line[3:] yields "
                "runes); all other text may be any valid UTF-8",
-               "READING: a <7> letter that no line of the supplier table names is decoded to the EMPTY name, one list entry per letter (the "
-               "property says 'decoded to the supplier named for that letter in the file's own supplier table'; no supplier is named, the "
-               "positions of the other letters are kept). expectedMap demands it, about 5 % of the generated letters are outside the table",
+               "a <7> letter that no line of the supplier table names is NOT constrained by the property; the code writes the empty name for it "
+               "(one list entry per letter) and parse_listing states that as a fact about the code. The JUDGE demands only the names of the "
+               "letters the table names, in order, and accepts any one string or no entry for an unnamed letter; a difference from the model "
+               "confined to those slots is drift (class …/unknown-letter-drift), not a DIFF. About 5 % of the generated letters are outside the table",
                "text is a sequence of code points in model, spec and theorems (List Char; the JSON text a list of code points); UTF-8 encoding "
                "and decoding is below the model: 'byte for byte' comparisons are comparisons of the decoded strings the protocol carries",
                "nil and the empty list are identified (isoschizomers, suppliers): an empty <2> or <7> line denotes no isoschizomers / no suppliers",
